@@ -1,18 +1,23 @@
-//! verif-harness: runs the real rodbus code (linked by path from /repo) on cases read from
-//! stdin, one case per line, and prints one canonical result line per case.
-//! Subcommands mirror the entry points of the Coq model (see /verif/DESIGN.md section 3.2).
+//! verif-harness: runs the real rodbus code (linked by path from the repository under test) on
+//! cases read from stdin, one case per line, and prints one canonical result line per case.
+//! Subcommands (one file each in src/cmd/) mirror the entry points of the Coq model
+//! (see DESIGN.md section 3.2).
 
-mod retry;
-mod util;
+pub mod util;
+pub mod wire;
+
+mod cmds {
+    include!(concat!(env!("OUT_DIR"), "/cmds.rs"));
+}
 
 fn main() {
     let args: Vec<String> = std::env::args().collect();
     let sub = args.get(1).map(|s| s.as_str()).unwrap_or("");
     let rest: Vec<String> = args.iter().skip(2).cloned().collect();
-    let code = match sub {
-        "retry" => retry::main(&rest),
-        _ => {
-            eprintln!("unknown subcommand {sub:?}");
+    let code = match cmds::dispatch(sub, &rest) {
+        Some(c) => c,
+        None => {
+            eprintln!("unknown subcommand {sub:?}; available: {:?}", cmds::NAMES);
             2
         }
     };
